@@ -8,6 +8,9 @@ _XKEYS = ["bip32_prv", "bip32_pub", "slip132_p2wpkh_prv", "slip132_p2wpkh_pub", 
           "slip132_p2wsh_p2sh_pub"]
 
 
+_KINDS = ["p2pkh", "p2wpkh", "p2wpkh_p2sh", "p2wsh", "p2wsh_p2sh"]
+
+
 def _bl(b):
     return "[" + ", ".join(str(x) for x in bytes(b)) + "]"
 
@@ -28,5 +31,26 @@ def constants():
             f"p2pkh := {_bl(n.p2pkh)}, p2sh := {_bl(n.p2sh)},\n    hrp := {_bl(n.hrp.encode('ascii'))},  -- \"{n.hrp}\"\n"
             f"    xprv := [{', '.join(_bl(v) for v in prv)}],\n    xpub := [{', '.join(_bl(v) for v in pub)}] }}")
     t += "/-- `network.NETWORKS`, in iteration order (the order `network_from_key_value` scans) -/\n"
-    t += "def NETWORKS : List Network := [\n" + ",\n".join(rows) + "]\n"
+    t += "def NETWORKS : List Network := [\n" + ",\n".join(rows) + "]\n\n"
+    # SLIP132: extended-key version -> (script type it commits to, private?, main?), one row per distinct version,
+    # read off the Network field NAMES (bip32_* is p2pkh/p2sh "m/44h", slip132_<type>_{prv,pub} the others)
+    seen, srows = {}, []
+    for name, n in network.NETWORKS.items():
+        for k in _XKEYS:
+            kind = "p2pkh" if k.startswith("bip32_") else k[len("slip132_"):-4]
+            v = bytes(getattr(n, k))
+            row = (kind, k.endswith("prv"), n.network_type == "main")
+            if v in seen:
+                if seen[v] != row:
+                    raise ValueError(f"xkey version {v.hex()} has two meanings: {seen[v]} and {row}")
+                continue
+            seen[v] = row
+            srows.append((f"({_bl(v)}, {_KINDS.index(kind)}, {'true' if row[1] else 'false'}, "
+                          f"{'true' if row[2] else 'false'})", kind))
+    t += "/-- SLIP132 / BIP32 version bytes: (version, script type, private key?, main network?);\n"
+    t += "    script types: " + ", ".join(f"{i} = {k}" for i, k in enumerate(_KINDS)) + " -/\n"
+    t += "def SLIP132 : List (List Nat × Nat × Bool × Bool) := [\n"
+    for i, (r, kind) in enumerate(srows):
+        t += f"  {r}{',' if i < len(srows) - 1 else ''}  -- {kind}\n"
+    t += "  ]\n"
     return t
